@@ -12,14 +12,14 @@ TECHNIQUE = ("Hypothesis-generated publish histories (up to 6 versions) with gen
              "with generated offline sets and delivery schedules; wire-level observation of every share header a client was shown; oracles: new seqnum > every seqnum the "
              "publisher's survey was shown, the survey's best version = highest-seqnum version with k distinct shares among the answers it processed, the survey asked every "
              "reachable server whenever it was shown a newer version it could not recover, retrieved contents = contents published under that seqnum")
-RULE = ("each case: SDMF/MDMF, k<=3, N<=6 on N..N+2 servers; a writer performs 2-6 steps, each a publish (overwrite) while a drawn subset of servers is offline, or a replay "
+RULE = ("each case: SDMF/MDMF, k<=3, N<=6 on N..N+2 servers; a writer performs 2-6 steps, each a publish (overwrite, or for MDMF an in-place update of the best version found) while a drawn subset of servers is offline, or a replay "
         "(the harness copies a server's share files of an older version back); then 1-3 reader surveys (MODE_READ servermap update + retrieval of its best version + a plain "
         "download_best_version) by fresh clients, each with its own offline set and schedule. Non-trivial = at least two versions with different sequence numbers are present "
         "on the servers at read time; distinct by whole case.")
 LEVEL_TEXT = "Random histories and schedules; what each client was shown is recorded at the wire, so the oracles do not depend on client-internal state."
 ASSUMPTIONS = ["one writer at a time (C12 covers races)", "servers are honest except for going offline and being rolled back to shares they held earlier",
                "'located' = answers delivered to the surveying client before its survey completed (the harness stops delivering at that moment)"]
-REQUIRED_CLASSES = ["stale-shares-at-read", "newer-unrecoverable-seen", "replay", "publish-with-offline", "read-older-than-newest", "mdmf", "sdmf", "publish-failed"]
+REQUIRED_CLASSES = ["planted-share", "in-place-update", "stale-shares-at-read", "newer-unrecoverable-seen", "replay", "publish-with-offline", "read-older-than-newest", "mdmf", "sdmf", "publish-failed"]
 BUDGET = {"quick": 900, "thorough": 7200}
 W = "slot_testv_and_readv_and_writev"
 
@@ -35,10 +35,35 @@ def cases(draw):
     n = draw(st.integers(k, 6))
     servers = n + draw(st.integers(0, 2))
     sub = st.lists(st.integers(0, servers - 1), max_size=servers - 1, unique=True)
-    steps = draw(st.lists(st.one_of(st.tuples(st.just("publish"), sub), st.tuples(st.just("publish"), sub), st.tuples(st.just("replay"), st.integers(0, servers - 1), st.integers(0, 4))).map(list),
+    steps = draw(st.lists(st.one_of(st.tuples(st.just("publish"), sub), st.tuples(st.just("publish"), sub), st.tuples(st.just("update"), sub), st.tuples(st.just("replay"), st.integers(0, servers - 1), st.integers(0, 4))).map(list),
                           min_size=1, max_size=5))
+    tmpl = draw(st.integers(0, 6))
+    if tmpl == 0:
+        # template A: a newer version survives on too few servers (the others are rolled back to what they held after creation), then the writer publishes again
+        keep = draw(st.integers(0, servers - 1))
+        off1 = draw(st.lists(st.integers(0, servers - 1), max_size=max(1, servers // 3), unique=True))
+        steps = [["publish", off1]] + [["replay", sidx, 0] for sidx in range(servers) if sidx != keep and sidx not in off1 and draw(st.integers(0, 4)) > 0] + \
+                [[draw(st.sampled_from(["update", "update", "publish"])), draw(sub)]] + draw(st.lists(st.tuples(st.just("update"), sub).map(list), max_size=1))
+    elif tmpl == 2:
+        # template C: everything is rolled back to the first version, then fewer than k shares of the newer version are planted on servers (spare ones first), so the
+        # writer's next survey sees a newer version it cannot recover next to an older recoverable one
+        k = max(2, k)
+        n = max(n, k)
+        servers = n + 2
+        steps = [["publish", []]] + [["replay", sidx, 0] for sidx in range(n)] + [["plant", 1, sh, n + (j % 2)] for j, sh in enumerate(draw(st.lists(st.integers(0, n - 1), min_size=1, max_size=k - 1, unique=True)))] + \
+                [[draw(st.sampled_from(["update", "update", "publish"])), []]]
+        sub = st.lists(st.integers(0, servers - 1), max_size=servers - 1, unique=True)
+    elif tmpl == 1:
+        # template B: spare servers exist; a publish misses 1-2 share holders (their shares go to the spare servers), then every original holder is rolled back, so the
+        # newer version lives only on the spare servers with fewer than k shares while every share number still has an older copy; then the writer updates/overwrites
+        k = 3
+        n = max(n, 5)
+        servers = n + 2
+        off1 = draw(st.lists(st.integers(0, n - 1), min_size=1, max_size=2, unique=True))      # (numbers are placement-relative: 0..n-1 hold shares after creation)
+        steps = [["publish", off1]] + [["replay", sidx, 0] for sidx in range(servers)] + [[draw(st.sampled_from(["update", "update", "publish"])), []]]
+        sub = st.lists(st.integers(0, servers - 1), max_size=servers - 1, unique=True)
     reads = draw(st.lists(st.tuples(sub, st.lists(st.integers(0, 9), max_size=30)).map(list), min_size=1, max_size=3))
-    return {"fmt": draw(st.sampled_from(["sdmf", "mdmf"])), "k": k, "n": n, "servers": servers, "steps": steps, "reads": reads}
+    return {"fmt": draw(st.sampled_from(["sdmf", "mdmf", "mdmf"])), "k": k, "n": n, "servers": servers, "steps": steps, "reads": reads}
 
 
 def run_shard(spec, ctx):
@@ -70,7 +95,7 @@ def run_case(case, ctx):
                     for sh, datav in res[1].items():
                         s = seq_of(datav[first])
                         if s is not None:
-                            shown.append((m.client, m.server.idx, sh, s))
+                            shown.append((m.client, m.server.idx, sh, s, bytes(datav[first][9:41])))
         elif m.meth == W:
             for sh, (tv, wv, nl) in m.args[2].items():
                 for (off, data) in wv:
@@ -93,20 +118,45 @@ def run_case(case, ctx):
         history = [("create", 1)]
         snaps = [{(s, sh): open(p, "rb").read() for (s, sh, p) in g.all_share_paths(si)}]
         last_seq = 1
+        # server numbers in the case are relative to the placement: 0.. = the servers that received shares at creation (in server order), then the spare ones
+        holders = sorted(set(s for (s, sh) in snaps[0]))
+        order = holders + [s.idx for s in g.servers if s.idx not in holders]
+        case = dict(case)
+        case["steps"] = [[st_[0], [order[x % len(order)] for x in st_[1]]] if st_[0] in ("publish", "update") else ([st_[0], order[st_[1] % len(order)], st_[2]] if st_[0] == "replay" else
+                         [st_[0], st_[1], st_[2], order[st_[3] % len(order)]]) for st_ in case["steps"]]
+        case["reads"] = [[[order[x % len(order)] for x in off], sch] for (off, sch) in case["reads"]]
 
         def desc():
             return "fmt=%s k=%d N=%d servers=%d history=%r" % (fmt, k, n, case["servers"], history)
         for step in case["steps"]:
-            if step[0] == "publish":
+            if step[0] in ("publish", "update"):
                 for s in g.servers:
                     s.down = s.idx in step[1]
                 if step[1]:
                     classes.add("publish-with-offline")
                 n0, w0 = len(shown), len(written)
                 body = b"version-after-%d-steps-" % len(history) + pbytes(len(history), 5 + len(history))
-                rr = g.run(node.overwrite(mutfile.mdata(body)))
+                bodies = [body]
+                if step[0] == "update" and fmt == "mdmf":
+                    # an in-place update (as `tahoe put --offset` does) of whatever version the writer's survey finds best
+                    classes.add("in-place-update")
+                    patch = b"<upd%d>" % len(history)
+                    base = {}
+
+                    def do_update():
+                        d0 = node.get_best_mutable_version()
+
+                        def got(mv):
+                            base["seq"] = mv.get_sequence_number()
+                            return mv.update(mutfile.mdata(patch), 2)
+                        return d0.addCallback(got)
+                    rr = g.run(do_update())
+                    bodies = [b0[:2] + patch + b0[2 + len(patch):] for b0 in contents.get(base.get("seq"), []) if len(b0) >= 2] or [body]
+                    body = bodies[0]
+                else:
+                    rr = g.run(node.overwrite(mutfile.mdata(body)))
                 g.sched.settle()
-                seen = [s for (c, srv, sh, s) in shown[n0:] if c == 0]
+                seen = [s for (c, srv, sh, s, rh) in shown[n0:] if c == 0]
                 new = sorted(set(s for (c, s) in written[w0:] if c == 0))
                 if rr[0] == "ok":
                     ctx.check(len(new) == 1, "mixed-seqnums", "%s: one publish wrote shares with sequence numbers %r" % (desc(), new))
@@ -116,7 +166,7 @@ def run_case(case, ctx):
                     ctx.check(ns > last_seq or max(seen + [0]) < last_seq, "seqnum-not-increasing", "%s: publish wrote sequence number %d after this writer's earlier %d (survey saw %r)" % (desc(), ns, last_seq, sorted(set(seen))))
                     if ns in contents and body not in contents[ns]:
                         classes.add("seqnum-reused-after-unseen-version")
-                    contents.setdefault(ns, []).append(body)
+                    contents.setdefault(ns, []).extend(bodies)
                     last_seq = max(last_seq, ns)
                     history.append(("publish", sorted(step[1]), "seq%d" % ns))
                 elif rr[0] == "err":
@@ -124,10 +174,26 @@ def run_case(case, ctx):
                     history.append(("publish", sorted(step[1]), "FAILED:" + type(rr[1]).__name__))
                     # a failed publish may still have stored shares of its new version on some servers
                     for ns in new:
-                        contents.setdefault(ns, []).append(body)
+                        contents.setdefault(ns, []).extend(bodies)
                 else:
                     ctx.fail("hang", "%s: publish never completed" % desc())
                 snaps.append({(s, sh): open(p, "rb").read() for (s, sh, p) in g.all_share_paths(si)})
+            elif step[0] == "plant":
+                # a server holds (again) a share of an earlier-published version: snapshot `which`, share number `shn`, retargeted to that server
+                from allmydata import uri as _uri
+                which, shn, srv = step[1] % len(snaps), step[2], step[3]
+                src = next((v for (s0, sh0), v in sorted(snaps[which].items()) if sh0 == shn), None)
+                if src is None:
+                    continue
+                from vf import refhash
+                from allmydata.storage.common import storage_index_to_dir
+                t = g.servers[srv]
+                raw = src[:32] + t.nodeid + refhash.write_enabler(_uri.from_string(cap).writekey, t.nodeid) + src[84:]
+                d = os.path.join(t.ss.sharedir, storage_index_to_dir(si))
+                os.makedirs(d, exist_ok=True)
+                open(os.path.join(d, "%d" % shn), "wb").write(raw)
+                classes.add("planted-share")
+                history.append(("plant", "state-after-step-%d" % which, shn, srv))
             else:
                 srv, which = step[1] % len(g.servers), step[2] % len(snaps)
                 old = {key: v for key, v in snaps[which].items() if key[0] == srv}
@@ -166,13 +232,13 @@ def run_case(case, ctx):
             g.sched.choices, g.sched.ci = list(sched), 0
             n0, a0 = len(shown), len(asked)
             rs = g.sched.run_until(nd.get_servermap(MODE_READ))
-            located = {}
-            for (c, srv, sh, s) in shown[n0:]:
+            located = {}        # (seqnum, root hash) -> share numbers shown   (two publishes that did not see each other can share a seqnum)
+            for (c, srv, sh, s, rh) in shown[n0:]:
                 if c == cid:
-                    located.setdefault(s, set()).add(sh)
+                    located.setdefault((s, rh), set()).add(sh)
             queried = set(srv for (c, srv) in asked[a0:] if c == cid)
             g.sched.settle()
-            rdesc = "%s; reader %d (offline %r, schedule %r) was shown %r" % (desc(), ri, sorted(offline), sched[:12], {s: sorted(v) for s, v in sorted(located.items())})
+            rdesc = "%s; reader %d (offline %r, schedule %r) was shown %r" % (desc(), ri, sorted(offline), sched[:12], {"seq%d-%s" % (s[0], s[1][:2].hex()): sorted(v) for s, v in sorted(located.items())})
             if rs[0] != "ok":
                 ctx.fail("survey-failed", "%s: survey failed %r" % (rdesc, rs))
                 continue
@@ -181,12 +247,13 @@ def run_case(case, ctx):
             best = sm.best_recoverable_version()
             reachable = set(s.idx for s in g.servers if not s.down)
             if rec:
-                ctx.check(best is not None and best[0] == max(rec), "not-highest-located", "%s: its best recoverable version is %s, the highest recoverable among the shares shown is seq%d" % (
-                    rdesc, "seq%d" % best[0] if best else None, max(rec)), best=(best[0] if best else None), expected=max(rec))
-                newer = [s for s in located if s > max(rec)]
+                top = max(r[0] for r in rec)
+                ctx.check(best is not None and best[0] == top, "not-highest-located", "%s: its best recoverable version is %s, the highest recoverable among the shares shown is seq%d" % (
+                    rdesc, "seq%d" % best[0] if best else None, top), best=(best[0] if best else None), expected=top)
+                newer = [s[0] for s in located if s[0] > top]
             else:
                 ctx.check(best is None, "phantom-version", "%s: claims version %r recoverable" % (rdesc, best and best[0]))
-                newer = list(located)
+                newer = [s[0] for s in located]
             if newer or not rec:
                 if newer:
                     classes.add("newer-unrecoverable-seen")
